@@ -231,6 +231,112 @@ def redirect_switch_under_lookups(chk, binp, sd, prop_text="a protected destinat
         eout.close()
 
 
+def agent_attach_sequence(chk, binp, sd, lport_hint=0):
+    """the agent's own attach step in the running kernel - Redirector::attach_bpf_prog with both programs, in the order of the source,
+    at the cgroup2 mount it finds itself (a stand-in findmnt names a test cgroup): once connects of a process in that cgroup are
+    redirected, the program that records the caller must be attached too. Where the kernel cannot attach it (no kprobes here), a
+    failed attach step must not leave connects redirected (nothing could ever be recorded for them)"""
+    import socket
+    import sys
+    import threading
+    import json
+    obj = os.path.join(sd, "ebpf_cgroup.att.o")
+    cc = subprocess.run(["clang", "-target", "bpf", "-O2", "-g", "-Wno-everything", "-D__TARGET_ARCH_x86", "-I", os.path.join(vlib.VERIF, "ebpf_sim", "bpfinc"),
+                         "-I/usr/include/x86_64-linux-gnu", "-c", os.path.join(vlib.REPO, "linux-ebpf", "ebpf_cgroup.c"), "-o", obj],
+                        stdout=subprocess.PIPE, stderr=subprocess.STDOUT, text=True)
+    if cc.returncode != 0:
+        chk.notes.append("agent-attach stage skipped: the program does not compile for the bpf target here")
+        return
+    fm = subprocess.run(["findmnt", "-t", "cgroup2", "-n", "-o", "TARGET"], stdout=subprocess.PIPE, text=True).stdout.split("\n")[0].strip()
+    if not fm:
+        chk.notes.append("agent-attach stage skipped: no cgroup2 mount")
+        return
+    cg = os.path.join(fm, "verif-c06a-%d" % os.getpid())
+    try:
+        os.mkdir(cg)
+    except OSError as e:
+        chk.notes.append("agent-attach stage skipped: cannot create a cgroup (%s)" % e)
+        return
+    bindir = os.path.join(sd, "fmatt")
+    os.makedirs(bindir, exist_ok=True)
+    doc = json.dumps({"filesystems": [{"target": cg, "source": "cgroup2", "fstype": "cgroup2", "options": "rw"}]})
+    open(os.path.join(bindir, "out.json"), "w").write(doc)
+    open(os.path.join(bindir, "findmnt"), "w").write("#!/bin/sh\n/bin/cat %s/out.json\nexit 0\n" % bindir)
+    os.chmod(os.path.join(bindir, "findmnt"), 0o755)
+    stop, eng, helper = [], None, None
+    name, ip, port = "wireserver", netip(168, 63, 129, 16), 80
+    a = "168.63.129.16"
+    try:
+        lp = socket.socket(); lp.bind(("127.0.0.1", 0)); lp.listen(16)
+        lport = lp.getsockname()[1]
+        subprocess.run(["ip", "addr", "add", a + "/32", "dev", "lo"], stderr=subprocess.DEVNULL)
+        h = socket.socket(); h.setsockopt(socket.SOL_SOCKET, socket.SO_REUSEADDR, 1)
+        try:
+            h.bind((a, port)); h.listen(16)
+        except OSError as e:
+            chk.notes.append("agent-attach stage skipped: cannot listen on the protected address (%s)" % e)
+            return
+
+        def serve(sock, tag):
+            sock.settimeout(0.3)
+            while not stop:
+                try:
+                    c, _ = sock.accept()
+                except OSError:
+                    continue
+                try:
+                    c.sendall(tag)
+                finally:
+                    c.close()
+        for sock, tag in ((lp, b"P"), (h, b"H")):
+            threading.Thread(target=serve, args=(sock, tag), daemon=True).start()
+        r, w = os.pipe()
+        eng = subprocess.Popen([binp], stdin=subprocess.PIPE, stdout=subprocess.DEVNULL, stderr=subprocess.DEVNULL, pass_fds=(w,), cwd=sd,
+                               env=dict(os.environ, VERIF_ENGINE="kernel", VERIF_OUT="/dev/fd/%d" % w))
+        os.close(w)
+        eout = os.fdopen(r)
+
+        def ctl(line):
+            eng.stdin.write((line + "\n").encode()); eng.stdin.flush()
+            return eout.readline().strip()
+        if ctl("load " + vlib.hx(obj)) != "ok":
+            chk.notes.append("agent-attach stage skipped: the object does not load here")
+            return
+        att = ctl("attachagent %s %d" % (vlib.hx(bindir), lport))
+        ctl("policy %d %d %d" % (ip, port, lport))
+        open(os.path.join(sd, "helper_att.py"), "w").write(HELPER)
+        helper = subprocess.Popen([sys.executable, os.path.join(sd, "helper_att.py")], stdin=subprocess.PIPE, stdout=subprocess.PIPE, text=True, bufsize=1)
+        open(os.path.join(cg, "cgroup.procs"), "w").write(str(helper.pid))
+        tags = []
+        for uid in (1000, 0, 33):
+            helper.stdin.write("%d %d %s:%d:tcp\n" % (uid, uid, a, port)); helper.stdin.flush()
+            ans = helper.stdout.readline().split()
+            tags.append(ans[1] if len(ans) > 1 else "?")
+        why = vlib.unhx(att[4:]).decode("utf-8", "replace")[-160:] if att.startswith("err ") else ""
+        chk.case(nontrivial_key=("agent-attach", att.split(" ")[0], tuple(tags)))
+        chk.count("kernel_agent_attach_" + att.split(" ")[0])
+        d = {"kernel": "running kernel; Redirector::attach_bpf_prog at a test cgroup", "attach_step": att.split(" ")[0], "error": why,
+             "connects_to_168.63.129.16:80_landed_at": tags}
+        if att != "ok" and "P" in tags:
+            chk.violation("a connect was redirected to the proxy although no caller record can be produced for it", d,
+                          expected="not redirected after a failed attach step (or both programs attached)", observed=tags)
+        elif att == "ok" and any(t != "P" for t in tags):
+            chk.violation("connect redirected iff (destination protected and caller not the agent) does not hold", d, expected="P", observed=tags)
+    finally:
+        stop.append(1)
+        for p_ in (helper, eng):
+            if p_ is not None:
+                try:
+                    p_.stdin.close()
+                    p_.wait(timeout=3)
+                except Exception:
+                    p_.kill()
+        try:
+            os.rmdir(cg)
+        except OSError:
+            pass
+
+
 def kernel_stage(chk, binp, sd, rng, protected, local_ip):
     """the program built from the unmodified ebpf_cgroup.c for the bpf target is loaded into the RUNNING kernel by the agent's own loader
     (both programs pass the verifier), cgroup/connect4 is attached to a test cgroup, and real processes in that cgroup connect:
@@ -655,6 +761,7 @@ def run(chk):
     attach_point(chk, binp, sd, rng)
     kernel_stage(chk, binp, sd, rng, protected, local_ip)
     redirect_switch_under_lookups(chk, binp, sd)
+    agent_attach_sequence(chk, binp, sd)
     shutil.rmtree(sd, ignore_errors=True)
     chk.sample({"ops": model_in[:8], "sim": sim_out[:8]})
     if chk.counts.get("uid_ne_gid", 0) == 0 or chk.counts.get("records_expected", 0) == 0:
